@@ -287,11 +287,21 @@ def update_intensity(c):
         c.require(abs(ex) + abs(ey) > 0)
     else:
         c.require(ex * ex + ey * ey == 1)
-    dl = c.real('delta', -3, 3)
-    sa = PS(True, ex, ey, 0.0, dl)
-    sb = PS(True, -ey, ex, 0.0, dl)
+    px_, dl = c.real('phase_x', -3, 3), c.real('phase_y', -3, 3)
+    sa = PS(True, ex, ey, px_, dl)                 # (ex e^{i px}, ey e^{i py}) and (-ey e^{i px}, ex e^{i py}) are orthogonal
+    sb = PS(True, -ey, ex, px_, dl)
     E = rays._get_3d_electric_field(sa)
     Ea = [E[0, i] for i in range(3)]
+    # the launched field is Ex e^{i phase_x} s + Ey e^{i phase_y} p in the transverse basis p = k x x_hat / |k x x_hat|, s = p x k
+    import cmath as _cm
+    if c.mode == 'num':
+        kx, ky, kz = k0
+        pn = math.sqrt(ky * ky + kz * kz)
+        pv = (0.0, kz / pn, -ky / pn)
+        sv = (pv[1] * kz - pv[2] * ky, pv[2] * kx - pv[0] * kz, pv[0] * ky - pv[1] * kx)
+        for i in range(3):
+            want_i = ex * _cm.exp(1j * px_) * sv[i] + ey * _cm.exp(1j * dl) * pv[i]
+            c.ensure('C17.launch_field.is_the_stated_state_in_the_transverse_basis', abs(complex(Ea[i]) - want_i) < 1e-12)
     dotk = sum(c.val(Ea[i]) * k0[i] for i in range(3))
     c.ensure_eq('C17.launch_field.transverse_to_the_ray', dotk, 0)
     n2 = sum(c.val(Ea[i]) * c.val(Ea[i]).conjugate() for i in range(3))
